@@ -153,6 +153,15 @@ def _judge_pair(plan, tr, rk, prot, unp, probes):
     what = f"{rk.hash_name}/{rk.secret_alg}/{plan['mode']}"
     if tr.dc.all_violations:
         return common.violation("C03", "dc-rejected", "", "", "", "", str(tr.dc.all_violations[:2]))
+    if plan["mode"] == "pub" and rk.secret_alg == "DH" and prot.outcome.kind == "raise" and isinstance(prot.outcome.exc, ValueError):
+        # toy groups (2..8-byte primes) now and then give a GROUP public value of 0, 1 or p-1; a library that refuses such a
+        # value (it makes the shared secret predictable) is right, and no real group produces one: outside the claim
+        cur = gkdi.interval_of_filetime(plan["clock_ft"])
+        gp = gkdi.group_public_key(rk.hash_name, cms.chain_for(rk, dtyp.target_sd(sid), cur[0]).l2_seed(cur[1], cur[2]), rk.secret_alg, rk.eff_secret_params, rk.private_key_length)
+        _kl, p_, _g, y_ = gkdi.unpack_dh_key(gp)
+        if y_ in (0, 1, p_ - 1):
+            probes["degenerate_toy_group_value"] = 1
+            return None
     if prot.outcome.kind != "ok":
         et, frame = drive.exc_sig(prot.outcome)
         return common.violation("C03", "encrypt-side", prot.op["fl"], et, frame, plan["mode"], f"protect failed for {what}: {prot.outcome.exc!r}")
@@ -176,6 +185,10 @@ def _judge_pair(plan, tr, rk, prot, unp, probes):
             probes["lz_shared_secret"] = 1
         if rk.secret_alg == "DH":
             kl, p_, _g, y = gkdi.unpack_dh_key(ki)
+            if y in (0, 1, p_ - 1):
+                # the library's own ephemeral public value came out degenerate in a toy group (see above): outside the claim
+                probes["degenerate_toy_group_value"] = 1
+                return None
             if y >> (8 * (kl - 1)) == 0:
                 probes["lz_public_value"] = 1
             if kl > (p_.bit_length() + 7) // 8:
